@@ -26,6 +26,7 @@
 (*                          blindly and allocate ids from a stale copy     *)
 (*   "compact_latest_wins"  compaction keeps the latest delta per key      *)
 (*   "gc_ignores_outside"   tombstone GC ignores segments not compacted    *)
+(*   "compact_drops_checkpoint"  the manifest written by a compaction loses the checkpoint pointer *)
 (***************************************************************************)
 EXTENDS Naturals, Sequences, FiniteSets, TLC
 
@@ -34,6 +35,7 @@ CONSTANTS Deltas,      \* set of delta records [id, k, facts, t, tomb]
           MaxSelect,   \* max_segments_per_compaction
           GcBefore,    \* tombstones with t < GcBefore are older than the TTL
           Concurrent,  \* TRUE: flush and compaction interleave at call granularity
+          WithCheckpoint,  \* TRUE: checkpoints may be installed
           OrderedPush, \* TRUE: deltas arrive in stamp order (the TTL assumption behind tombstone GC)
           AsBuilt
 
@@ -49,7 +51,7 @@ VARIABLES objs,       \* key -> object:  manifest [segs, next, ver] | segment [d
 
 vars == <<objs, buffer, accepted, confirmed, fpc, fl, cpc, cl, lock, faults>>
 
-EmptyMan == [segs |-> {}, next |-> 0, ver |-> 0]
+EmptyMan == [segs |-> {}, next |-> 0, ver |-> 0, ck |-> {}]      \* ck: the deltas folded into the checkpoint the manifest points to
 (* the store image: manifest / manifest.tmp objects (with presence flags) and segment objects by id *)
 EmptyStore == [man |-> EmptyMan, hasman |-> FALSE, tmp |-> EmptyMan, hastmp |-> FALSE, segs |-> <<>>]
 HasSeg(O, i) == i \in DOMAIN O.segs
@@ -63,7 +65,7 @@ CurMan == IF objs.hasman THEN objs.man ELSE EmptyMan
 (* Recovery on a store image *)
 RefSegs(O) == IF O.hasman THEN O.man.segs ELSE {}
 ManifestSoundOn(O) == \A i \in RefSegs(O) : HasSeg(O, i) /\ ~O.segs[i].partial
-RecoverOn(O) == UNION {O.segs[i].ds : i \in {j \in RefSegs(O) : HasSeg(O, j)}}
+RecoverOn(O) == (IF O.hasman THEN O.man.ck ELSE {}) \cup UNION {O.segs[i].ds : i \in {j \in RefSegs(O) : HasSeg(O, j)}}
 
 Keys == {d.k : d \in Deltas}
 NewestTomb(ds, k) == LET T == {d.t : d \in {e \in ds : e.k = k /\ e.tomb}} IN
@@ -156,7 +158,8 @@ CompactPutSeg(r) ==
   /\ UNCHANGED <<buffer, accepted, confirmed, fpc, fl, cl>>
 CompactPutTmp(r) ==
   /\ cpc = "puttmp" /\ MayRun("compact")
-  /\ IF r = "ok" THEN /\ objs' = PutTmp(objs, [segs |-> (cl.man.segs \ cl.sel) \cup {cl.id}, next |-> cl.id + 1, ver |-> cl.man.ver + 1])
+  /\ IF r = "ok" THEN /\ objs' = PutTmp(objs, [segs |-> (cl.man.segs \ cl.sel) \cup {cl.id}, next |-> cl.id + 1, ver |-> cl.man.ver + 1,
+                                              ck |-> IF Dev("compact_drops_checkpoint") THEN {} ELSE cl.man.ck])
                       /\ cpc' = "rename" /\ NoFault /\ UNCHANGED lock
      ELSE Fault /\ CompactFail /\ UNCHANGED objs
   /\ UNCHANGED <<buffer, accepted, confirmed, fpc, fl, cl>>
@@ -172,7 +175,15 @@ CompactDelete ==
   /\ cpc' = "idle" /\ lock' = IF lock = "compact" THEN "none" ELSE lock
   /\ UNCHANGED <<buffer, accepted, confirmed, fpc, fl, cl, faults>>
 
+(* a checkpoint of everything recoverable is installed (nothing else running): the manifest points to it *)
+(* and the segments it covers leave the manifest                                                        *)
+InstallCheckpoint ==
+  /\ WithCheckpoint /\ fpc = "idle" /\ cpc = "idle" /\ objs.hasman /\ objs.man.segs # {} /\ ManifestSoundOn(objs)
+  /\ objs' = [objs EXCEPT !.man = [segs |-> {}, next |-> @.next, ver |-> @.ver + 1, ck |-> RecoverOn(objs)]]
+  /\ UNCHANGED <<buffer, accepted, confirmed, fpc, fl, cpc, cl, lock, faults>>
+
 Next ==
+  \/ InstallCheckpoint
   \/ \E d \in Deltas : Push(d)
   \/ FlushStart \/ \E ok \in BOOLEAN : FlushGet(ok)
   \/ \E r \in {"ok", "fail", "partial"} : FlushPutSeg(r) \/ FlushPutTmp(r) \/ CompactPutSeg(r) \/ CompactPutTmp(r)
